@@ -97,17 +97,35 @@ def new_exec(p: Program) -> ObjExec:
     ex.func_hooks["Function.load"] = lambda ex_, e, args, kw: None
     ex.func_hooks["RuleBlock.load_rules"] = lambda ex_, e, args, kw: None
 
+    def registered(ex_: Any, fac: MObj) -> dict[str, ClassInfo]:
+        """What the factory of the library registers: every concrete class of its module under its class name; hedges under the name they answer to."""
+        memo = fac.fields.get("<registered>")
+        if memo is None:
+            base = fac.fields["base"]
+            memo = {}
+            for c in p.subclasses(base, concrete_only=True):
+                if c.outer is not None or c.name.startswith("_") or c.module.name != p.cls(base).module.name:
+                    continue
+                if base == "Hedge":
+                    if ctor_params(c):
+                        continue  # HedgeLambda / HedgeFunction: built by the user, not registered
+                    memo[ex_.attr(ex_.instantiate(c, [], {}, E0), "name", E0)] = c
+                else:
+                    memo[c.name] = c
+            fac.fields["<registered>"] = memo
+        return memo
+
     def construct(ex_: Any, e: Any, recv: Any, args: list, kw: dict) -> Any:
         if not (isinstance(recv, MObj) and recv.cls == "<factory>"):
             raise Unknown("construct() on something that is not a factory")
         key = args[0] if args else kw.get("key")
         rest = {k: v for k, v in kw.items() if k != "key"}
-        base = recv.fields["base"]
-        c = p.classes.get(key) if isinstance(key, str) else None
-        if c is None or c.outer is not None or not any(k.qualname == base for k in c.mro) or c.is_abstract:
+        c = registered(ex_, recv).get(key) if isinstance(key, str) else None
+        if c is None:
             raise Raised("ValueError", e)
         return ex_.instantiate(c, list(args[1:]), rest, e)
 
+    ex.factory_contains = lambda fac, key: isinstance(key, str) and key in registered(ex, fac)
     ex.hooks["method:construct"] = construct
     return ex
 
@@ -142,6 +160,10 @@ def make_component(ex: ObjExec, c: ClassInfo, cnt: Counter, *, name: str | None 
                 kw[pname] = height
         elif pname in ("engine", "load"):
             continue
+        elif pname == "variables" and c.name == "Function":
+            # substitution variables of a formula: a Python matter (the FuzzyLite Language has no place for them), in every other Function term
+            if getattr(ex, "function_variables", False) and height is not None:
+                kw[pname] = {"gain": cnt.sym("g"), "offset": cnt.sym("o")}
         elif ann_ in ("float", "Scalar", "float|None", "Scalar|float"):
             kw[pname] = cnt.sym(pname[:3])
         elif ann_ in ("int", "int|None"):
@@ -225,7 +247,8 @@ def model_engines(ex: ObjExec, cnt: Counter) -> list[tuple[str, MObj]]:
                          maximum=cnt.sym("hi"), lock_range=bool((j + flags + 1) % 2), lock_previous=bool((j // 2 + flags) % 2),
                          default_value=cnt.sym("def") if (j + flags) % 2 else NAN,
                          aggregation=ex.instantiate(snorms[(j + flags) % len(snorms)], [], {}, E0) if (j + flags) % 3 else None, defuzzifier=d,
-                         terms=all_terms(None, f"o{j}") if j == 0 else [make_component(ex, terms[(j + flags) % len(terms)], cnt, name="t", height=cnt.sym("h")) or
+                         terms=all_terms(1.0, f"o{j}") if j == 0 else  # the height 1.0 given explicitly (not through the default)
+                          [make_component(ex, terms[(j + flags) % len(terms)], cnt, name="t", height=cnt.sym("h")) or
                                                                        C("Constant", name="t", value=cnt.sym("k"))]))
         ovs.append(C("OutputVariable", name="Onone", description="", enabled=T, minimum=cnt.sym("lo"), maximum=cnt.sym("hi"), lock_range=F, lock_previous=T,
                      default_value=cnt.sym("def"), aggregation=None, defuzzifier=None, terms=[C("Constant", name="k", value=cnt.sym("k"))]))
@@ -256,6 +279,48 @@ def model_engines(ex: ObjExec, cnt: Counter) -> list[tuple[str, MObj]]:
     out.append(("model engine of norms", C("Engine", name="norms", input_variables=[], output_variables=ovs, rule_blocks=rbs, load=False)))
     out.append(("empty engine", C("Engine", name="empty", load=False)))
     return out
+
+
+LOADED_RULES = ["if (A is a or B is very a) and A is not b then O is k with 0.5",
+                "if A is a and (B is a or A is b) then O is very k and P is not seldom k",
+                "if A is a or B is a and A is b then P is k",
+                "if (A is somewhat a) then O is k"]
+
+
+def loaded_engine(ex: ObjExec, cnt: Counter) -> MObj:
+    """An engine whose rules are really loaded (`Rule.load` interpreted, with the library's function factory built by its own constructor): antecedents
+    with parentheses that change the meaning, hedges, both connectives. What is written for such an engine must be what is written before loading."""
+    p = ex.p
+
+    def C(cname: str, *a: Any, **k: Any) -> MObj:
+        return ex.instantiate(p.cls(cname), list(a), k, E0)
+
+    manager = ex.globals["settings"].fields["factory_manager"]
+    if "function" not in manager.fields and "FunctionFactory" in p.classes:
+        manager.fields["function"] = C("FunctionFactory")
+    tri = lambda nm: C("Triangle", nm, cnt.sym("a"), cnt.sym("b"), cnt.sym("c"))  # noqa: E731
+    ivs = [C("InputVariable", name="A", minimum=cnt.sym("lo"), maximum=cnt.sym("hi"), terms=[tri("a"), tri("b")]),
+           C("InputVariable", name="B", minimum=cnt.sym("lo"), maximum=cnt.sym("hi"), terms=[tri("a")])]
+    ovs = [C("OutputVariable", name=n, minimum=cnt.sym("lo"), maximum=cnt.sym("hi"), defuzzifier=C("WeightedAverage"), terms=[C("Constant", "k", cnt.sym("k"))]) for n in ("O", "P")]
+    create = p.func("Rule.create")
+    hooked = {k: ex.func_hooks.pop(k) for k in ("Rule.load", "RuleBlock.load_rules") if k in ex.func_hooks}
+    try:
+        rules = []
+        for text in LOADED_RULES:
+            r = C("Rule")
+            ex.store_attr(r, "text", text, E0)
+            rules.append(r)
+        eng = C("Engine", name="loaded", input_variables=ivs, output_variables=ovs,
+                rule_blocks=[C("RuleBlock", name="rb", conjunction=C("Minimum"), disjunction=C("Maximum"), implication=C("Minimum"), activation=C("General"), rules=rules)], load=False)
+        for r in rules:
+            ex.invoke(p.func("Rule.load"), [r, eng], {}, E0)
+            loaded = ex.invoke(p.func("Rule.is_loaded"), [r], {}, E0)
+            if loaded is not True:
+                raise Unknown("a rule of the model engine is not loaded after Rule.load")
+    finally:
+        ex.func_hooks.update(hooked)
+    del create
+    return eng
 
 
 NON_CANONICAL = [
@@ -311,6 +376,20 @@ OutputVariable:   Y
   term:   lin   Linear   1.000   2.000
 RuleBlock:
   rule:   if   X   is   very   z   then   Y   is   lin
+"""),
+    ("a text whose numbers have more digits than the setting prints, small negative ones (which print as a negative zero) among them", """Engine: digits
+InputVariable: error
+  range: -1.00049 1.0000001
+  term: zero Triangle -0.5 -0.0004 0.5
+  term: minus Ramp -0.0 -1
+OutputVariable: correction
+  range: -1e0 1
+  defuzzifier: WeightedAverage
+  default: -0.0001
+  term: hold Constant -0.0003
+  term: up Constant 0.99996
+RuleBlock: rb
+  rule: if error is zero then correction is hold with 0.12345
 """),
 ]
 
@@ -403,7 +482,11 @@ def roundtrip(check: Check, rule: str = "RT-sem") -> bool:
         raise AnalysisError("anchor vanished: FllExporter.engine / FllImporter.from_string")
     check.analysed(exp_engine)
     check.analysed(imp_from)
-    ex = new_exec(p)
+    from .pyroundtrip_sem import py_exec
+
+    ex = py_exec(p, "fl")  # with the representation modelled as well: code shared between the two writers (Op.class_name) may ask it for the package prefix
+    ex.qual = "round trip"
+    ex.function_variables = False
     cnt = Counter()
     try:
         engines = model_engines(ex, cnt)
@@ -413,6 +496,11 @@ def roundtrip(check: Check, rule: str = "RT-sem") -> bool:
     cases = 0
     fields_compared = 0
     undecided: list[str] = []
+    try:
+        engines.append(("engine with loaded rules", loaded_engine(ex, cnt)))
+    except (Unknown, Raised, Internal) as err:
+        cases += 1
+        undecided.append(f"engine with loaded rules: loading its rules is outside the interpreter's model ({getattr(err, 'cls', '')}{getattr(err, 'why', err)})")
     runs = [(label, eng, {}) for label, eng in engines]
     runs.append((engines[1][0] + ", lines separated by ';'", engines[1][1], {"separator": ";"}))  # the separator both classes take as an argument
     for label, eng, options in runs:
@@ -480,7 +568,8 @@ def roundtrip(check: Check, rule: str = "RT-sem") -> bool:
             bad.setdefault("normalises", (f"{label}: one import / export cycle does not reach a fixed point; line {i + 1} `{(la[i] if i < len(la) else '<end>').strip()}` becomes "
                                           f"`{(lb[i] if i < len(lb) else '<end>').strip()}` in the next cycle", None))
         diffs = []
-        differences(e1, e2, "", diffs, set(), limit=10)
+        if "more digits" not in label:  # numbers the setting cannot represent are rounded by the cycle: there only the text is compared
+            differences(e1, e2, "", diffs, set(), limit=10)
         for d in diffs:
             import re
             bad.setdefault("normalises", (f"{label}: the engine imported from the normalised text differs from the one imported from the original: {re.sub(r'^<[^>]+> ', '', d)}", None))
